@@ -17,11 +17,12 @@ PROPERTY = 'C10'
 LEAN_TARGETS = ['PxProofs.C10']
 THEOREMS = [
     'Px.Exec.C10_release', 'Px.Exec.C10_no_residue', 'Px.Exec.C10_release_round', 'Px.Exec.C10_reap',
-    'Px.Exec.C10_return_to_start', 'Px.Exec.C10_footprint_before_after', 'Px.Exec.C05_reach_inv',
+    'Px.Exec.C10_return_to_start', 'Px.Exec.C10_footprint_before_after', 'Px.Exec.C10_alloc_lowest_free',
+    'Px.Exec.C05_reach_inv',
 ]
 RULE = ('hist / sel as in C05; real: multi-connection scenarios with the real handlers in every role (every script '
         'prefix x every abort kind, connect failures, injected socket errors, idle reaping), end state and socket '
-        'closure checked; repeat: one connection history repeated n times on one executor with /proc/self/fd '
+        'closure checked (descriptor closed, and close() called exactly once on every proxy-side socket); repeat: one connection history repeated n times on one executor with /proc/self/fd '
         'counted before and after; distinct by canonical JSON; non-trivial = a connection ends in the case')
 ASSUMPTIONS = [
     'which descriptors a work\'s shutdown() closes is an input of the model (Shutdown.closes); that the real '
@@ -83,6 +84,16 @@ def _hist_oracle(case):
         w.close()
 
 
+def _closes_sig(r):
+    """every socket opened for a connection is close()d exactly once through the connection objects; the one
+    tolerated exception is an upstream socket the reverse proxy replaced (dropped, closed by the interpreter)"""
+    for kind, addr, n, replaced in r.get('closes', []):
+        if n == 1 or (replaced and n == 0):
+            continue
+        return '%s-socket-%s' % (kind, 'never-closed' if n == 0 else 'closed-%d-times' % n)
+    return None
+
+
 def oracle(case):
     k = case['kind']
     if k == 'sel':
@@ -100,7 +111,7 @@ def oracle(case):
             return 'socket-left-open'
         if r['fds_after'] != r['fds_before']:
             return 'descriptor-count-grew' if r['fds_after'] > r['fds_before'] else 'descriptor-count-shrank'
-        return None
+        return _closes_sig(r)
     r = S.run_real(case)
     if r['dead'] is not None:
         return 'run-once-raised-' + exc_name(r['dead'])
@@ -113,7 +124,7 @@ def oracle(case):
         return 'selector-key-left'
     if r['leaked']:
         return 'socket-left-open'
-    return None
+    return _closes_sig(r)
 
 
 def _conn(role, i, steps=None, **kw):
